@@ -33,7 +33,7 @@ RandCmt(x) == IF Coin(2, x) THEN [free |-> Pick(1..Len(FreeTexts)), tags |-> <<>
 
 (* Clean region: a lower-case word commodity is only written as the last thing before the end of the
    line or a comment (trigger lower-commodity-before-operator covers the other placements). *)
-NoLower == 0..(Len(Commodities) - 1)
+NoLower == { c \in 0..Len(Commodities) : c = 0 \/ Commodities[c].k # "lower" }
 RandPost(x) ==
     LET hasAmt  == ~Coin(4, x)
         hasCost == hasAmt /\ Coin(5, x)
